@@ -618,7 +618,8 @@ SPEC = {
              '(every cone gate used outside listed as output, boundary independent of the cone) must succeed with the '
              'truth table, interface and well-formedness kept; injected faults (unlisted fan-out, non-input mapped, '
              'missing input, label collision, overlapping keys) must raise a CircuitError or still keep the function. '
-             'Non-trivial: touched gate has users or is an output; cone of >=2 gates.'),
+             'Non-trivial: touched gate has users or is an output; cone of >=2 gates.'
+             ' Added during the build: whole-list and live-list replace_inputs, a look at the circuit before and a rename after replace_inputs, replacements reading a gate downstream of the cone, unmarked mapped outputs, cones in dead logic, construction routes for the replacement circuit, crossed output labels, constructive non-convex cuts.'),
     'assumptions': ['reference tables / snapshots from vlib'],
     'subs': [Sub('rename', rename_cases, check_rename, {'quick': 1500, 'thorough': 100000}),
              Sub('replace_inputs', repl_inputs_cases, check_replace_inputs, {'quick': 1000, 'thorough': 75000}),
